@@ -1,8 +1,9 @@
-SPECIFICATION MCSpec
+SPECIFICATION MC3Spec
 CONSTANTS
   Names = {"a", "b", "c"}
   Missing = "zz"
   MaxMods = 3
+  MaxEdges = 2
 INVARIANT ReadyMeansStarted
 INVARIANT RefusedClean
 INVARIANT ShutdownOrder
